@@ -7,11 +7,12 @@ sys.path.insert(0, os.path.dirname(os.path.abspath(__file__)))
 import framework  # noqa: E402
 import coqrun  # noqa: E402
 import stdlibcases as sc  # noqa: E402
+import execcases as ec  # noqa: E402
 from coqrun import z  # noqa: E402
 
 PID = "C19"
 TARGETS = ["Properties/C19.vo"]
-MODEL_TARGETS = ["Model/Stdlib.vo"]
+MODEL_TARGETS = ["Model/Stdlib.vo", "Model/InstrOf.vo", "Proofs/C19_Routines.vo"]
 ASSUMPTIONS = [
     "PARTIAL: theorems for div and mod only (signed division truncating towards zero, remainder with the sign of "
     "the dividend, zero divisor gives zero, results are 16-bit words, quotient*divisor+remainder recomposes the "
@@ -128,6 +129,62 @@ def oracle(rng, conv, f, args):
     return None
 
 
+ROUTINES = {"size": "size_reg_code", "ord": "ord_reg_code"}
+RHEADER = """From Coq Require Import ZArith List.
+From Hera.Lib Require Import Py Machine.
+From Hera.Gen Require Import Ops.
+From Hera.Spec Require Import ISA.
+From Hera.Model Require Import InstrOf.
+From Hera.Proofs Require Import C19_Routines.
+Import ListNotations.
+Open Scope Z_scope.
+Definition keyof (p : opname * list Z) : list Z := match instr_of (fst p) (snd p) with Some i => instr_key i | None => [] end.
+Definition flat (l : list (list Z)) : list Z := concat (map (fun k => Z.of_nat (List.length k) :: k) l).
+"""
+
+
+def real_routine(name):
+    """The operations the real parser + preprocessor produce for the register-convention library routine
+    `name`: from its label to its RETURN.  -> [(class name, [int args])] or a string saying why not."""
+    from hera.data import Settings
+    from hera.loader import load_program
+    try:
+        p = load_program("#include <Tiger-stdlib-reg-data.hera>\nHALT()\n#include <Tiger-stdlib-reg.hera>\n", Settings())
+    except SystemExit:
+        return "the register-convention library no longer loads"
+    if name not in p.symbol_table:
+        return "no label %s in the library" % name
+    i, ops = int(p.symbol_table[name]), []
+    while i < len(p.code) and len(ops) < 50:
+        o = p.code[i]
+        if not all(isinstance(a, int) for a in o.args):
+            return "non-integer argument in %s" % name
+        ops.append((type(o).__name__, [int(a) for a in o.args]))
+        i += 1
+        if type(o).__name__ == "RETURN":
+            break
+    return ops
+
+
+def routine_correspondence(disagreements):
+    """The instruction lists the C19_Routines theorems are about are the library's `size` and `ord`."""
+    import io, contextlib
+    n = 0
+    for name, const in ROUTINES.items():
+        with contextlib.redirect_stdout(io.StringIO()), contextlib.redirect_stderr(io.StringIO()):
+            ops = real_routine(name)
+        if isinstance(ops, str):
+            disagreements.append({"what": "routine %s: %s" % (name, ops)})
+            continue
+        term = "[%s]" % "; ".join("(O_%s, [%s])" % (ec.cname_ident(c), "; ".join(z(a) for a in args)) for c, args in ops)
+        outs = coqrun.eval_cases("C19r_" + name, RHEADER, ["flat (map keyof %s)" % term, "flat (map instr_key %s)" % const], shard=10)
+        n += 1
+        if outs[0] != outs[1] or 0 in outs[0][:1] or not outs[0]:
+            disagreements.append({"what": "the library routine %s is no longer the instruction list %s of Proofs/C19_Routines.v" % (name, const),
+                                  "impl": ops, "impl_keys": outs[0], "model_keys": outs[1]})
+    return n
+
+
 def known_replays(ctx, findings):
     """D45: the stack-convention getline does not return to its caller."""
     out = []
@@ -158,6 +215,7 @@ def correspondence(ctx, model_available=True):
                 disagreements.append({"what": "tiger_div/tiger_mod vs Model/Stdlib", "args": [a, b], "impl": [fdiv(a, b), fmod(a, b)], "model": o})
     elif model_available:
         disagreements.append({"what": "hera/stdlib.py no longer has tiger_div / tiger_mod: the model has nothing to be compared with"})
+    routines = routine_correspondence(disagreements) if model_available else 0
     # (2) the library on the real interpreter
     st = {"calls": 0, "by_function": {}}
     # getline: the register version must return the line read; the stack version is finding D45
@@ -177,12 +235,13 @@ def correspondence(ctx, model_available=True):
                 spec_failures.append({"what": p, "function": f, "args": args, "convention": conv})
     return {
         "cases": len(pairs) + st["calls"], "nontrivial": st["calls"],
-        "rule": "div/mod helpers vs Model/Stdlib.v on the grid of edge values (0, +-1, +-2, +-32768, 32767, ...) and random "
+        "rule": "the operations the real loader produces for the register-convention `size` and `ord` vs the instruction lists of "
+                "Proofs/C19_Routines.v (through Model/InstrOf); div/mod helpers vs Model/Stdlib.v on the grid of edge values (0, +-1, +-2, +-32768, 32767, ...) and random "
                 "words; every library function in both conventions called from a generated caller on the real interpreter "
                 "with edge and random arguments (negative numbers, zero divisors, empty / equal / prefix / unequal strings, "
                 "out-of-range substring bounds) under random register contents: result vs an independent computation, "
                 "return to the caller, SP/FP restored, R1..R10 preserved (stack convention), malloc blocks disjoint",
-        "distribution": {"divmod_pairs": len(pairs), "divmod_model_agree": agree, **st},
+        "distribution": {"divmod_pairs": len(pairs), "divmod_model_agree": agree, "routines_compared": routines, **st},
         "samples": [{"function": "div", "args": [65530, 2]}],
         "disagreements": disagreements[:10], "spec_failures": spec_failures[:5],
         "model_vs_impl_agree": agree, "model_available": model_available,
